@@ -355,6 +355,12 @@ ILL = {
     "argument-type": ("int passed to a string parameter", "    (println (str_length total))\n"),
     "undefined-field": ("field that the struct does not have", "    let cp0: CP = CP { x: 1 }\n    (println cp0.zz)\n"),
     "undefined-variant": ("variant that the union does not have", "    let cu0: CU = CU.Zz { v: 1 }\n    (println 1)\n"),
+    "undefined-variant-match-expression": ("match expression arm for a variant that the union does not have",
+                                           "    let cu1: CU = CU.A { v: 1 }\n    let mx1: int = match cu1 { A(q1) => q1.v, Zz(q2) => 0 }\n    (println mx1)\n"),
+    "undefined-variant-match-statement": ("match statement arm for a variant that the union does not have",
+                                          "    let cu2: CU = CU.A { v: 1 }\n    match cu2 {\n        A(q3) => { (println q3.v) }\n        Zz(q4) => { (println 0) }\n    }\n"),
+    "duplicate-arm-match-expression": ("match expression with two arms for one variant",
+                                       "    let cu3: CU = CU.A { v: 1 }\n    let mx3: int = match cu3 { A(q5) => q5.v, A(q6) => 0 }\n    (println mx3)\n"),
     "set-type": ("set of a value of another type", "    let mut mv: int = 1\n    set mv \"s\"\n    (println mv)\n"),
     "unknown-function": ("call of an undefined function", "    (println (nofn_zz total))\n"),
     "consumed-resource": ("use of a resource value after it was consumed", "    let rh: RH = (mkr 1)\n    (println (closer rh))\n    (println (closer rh))\n"),
